@@ -219,6 +219,17 @@ func richOutcome(i, out int) Outcome {
 	case 1:
 		return Outcome{Err: fmt.Errorf("err-%d", i)}
 	case 2:
+		// panics with values of several types: all of them must become the job's error
+		switch i % 5 {
+		case 1:
+			return Outcome{Panic: 4200 + i}
+		case 2:
+			return Outcome{Panic: fmt.Errorf("panic-error-%d", i)}
+		case 3:
+			return Outcome{Panic: struct{ Code int }{9000 + i}}
+		case 4:
+			return Outcome{Panic: []byte(fmt.Sprintf("panic-bytes-%d", i))}
+		}
 		return Outcome{Panic: fmt.Sprintf("panic-%d", i)}
 	}
 	return Outcome{Val: 1000 + i}
